@@ -334,12 +334,28 @@ def rule_b(chk, f, enc):
         chk.ob('b', f.ref, f'length table entry {k_}: decoder agrees with encoder', got == exp_ and ok_d, loc(f, ifexp), detail=f'encoder {exp_}, decoder {got}',
                discr=f'table:{k_}')
     # big-endian accumulation in the decoder, big-endian emission in the encoder
-    acc = [n for n in walk_no_defs(f.node) if isinstance(n, ast.Assign) and src(n.targets[0]) == 'payload_length' and
-           src(n.value).replace(' ', '') in ('payload_length*256+data[offset]', '(payload_length<<8)+data[offset]', 'payload_length<<8|data[offset]')]
-    chk.ob('b', f.ref, 'the decoder accumulates the extended length big-endian', bool(acc), loc(f, f.node), discr='decoder-big-endian')
-    em = [n for n in walk_no_defs(enc.node) if isinstance(n, ast.For) and src(n.iter).replace(' ', '') == f'range({nbv}-1,-1,-1)']
-    ok = bool(em) and any(src(c).replace(' ', '') == f'tail.append({lv}>>i*8&255)' for c in calls_in(em[0]))
-    chk.ob('b', enc.ref, 'the encoder emits the extended length big-endian, byte by byte', ok, loc(enc, enc.node), discr='encoder-big-endian')
+    # (by evaluation: the decoder is run on two incomplete frames that carry only a header — 16-bit form 0x0102, 64-bit form 0x0000000001000203 — and the local
+    # that held the length code must then hold 258 resp. 16777731; the encoder is run on payloads of 258 and 70 000 bytes and the tail it returns must start
+    # with the same bytes)
+    dec_ok, dec_got = True, {}
+    for hdr_, want_ in (((0x82, 126, 0x01, 0x02), 258), ((0x82, 127, 0, 0, 0, 0, 0x01, 0x00, 0x02, 0x03), 16777731)):
+        env_, _at = concrete.run(f, {dv_: hdr_, '$self._buffer': (), '$self._close_received': False})
+        dec_got[want_] = env_.get(plv)
+        dec_ok = dec_ok and env_.get(plv) == want_
+    chk.ob('b', f.ref, 'the decoder accumulates the extended length big-endian', dec_ok, loc(f, f.node), detail=f'expected: decoded {dec_got}', discr='decoder-big-endian')
+    enc_ok, enc_got = True, {}
+    rets = [n for n in enc.cfg().nodes if n.kind == 'stmt' and isinstance(n.ast, ast.Return) and n.ast.value is not None]
+    for L, want_ in ((258, (126, 0x01, 0x02)), (70000, (127, 0, 0, 0, 0, 0, 0x01, 0x11, 0x70))):
+        env_, at_ = concrete.run(enc, {enc.params[1]: concrete.Sized(L), (enc.params[2] if len(enc.params) > 2 else 'mask'): False}, stop=lambda n, e: n in rets or (n.kind == 'stmt' and isinstance(n.ast, ast.AugAssign) and enc.params[1] in Q.names_used(n.ast.value)))
+        got_t = None
+        if at_ is not None and at_.kind == 'stmt':
+            # (the payload itself is not a value of this evaluation: what was emitted before it is)
+            cand_ = [v for v in env_.values() if isinstance(v, tuple) and v[:1] == want_[:1]]
+            got_t = cand_[0] if cand_ else None
+        enc_got[L] = got_t
+        enc_ok = enc_ok and got_t is not None and tuple(got_t[:len(want_)]) == want_
+    chk.ob('b', enc.ref, 'the encoder emits the extended length big-endian, byte by byte', enc_ok, loc(enc, enc.node), detail=f'header bytes emitted: {enc_got}',
+           discr='encoder-big-endian')
     # mask bit / 7-bit mask
     ok = bool(cands) and bool(flags)
     chk.ob('b', f.ref, 'decoder: low 7 bits are the length code, the high bit is the mask flag', ok, loc(f, f.node), detail=f'length code in `{plv}`, mask flag in {flags}',
